@@ -40,6 +40,8 @@ def run(ctx):
     ctx.nontrivial = 0
     seen = set()
     deviating = {}
+    deep_undecided = set()
+    DEPTHCAP = 20 if quick else 130
     for f in files:
         for e in vlib.read_ndjson(f):
             if e.get("op") == "draw" and e.get("n") != [1]:
@@ -51,11 +53,14 @@ def run(ctx):
             e = vlib.nth_line(f, b["l"])
             why = b["why"]
             if why.startswith("prop:"):
-                ctx.violation("directed draw: %s (bound limbs %s)" % (why[5:], e.get("n")), dict(kind="draw", event=e))
+                ctx.violation("directed draw: %s (bound limbs %s)" % (why[5:], e.get("n")), dict(kind=e.get("op", "draw"), event=e))
             elif why.startswith("shape:"):
                 n = sum(x << (15 * i) for i, x in enumerate(e.get("n", [])))
-                depth = min(max(e.get("used", 1), 2), 12) if ("continuation" in why or e.get("used", 1) > 1) else 1
-                deviating.setdefault(n, set()).add(depth)
+                depth = max(e.get("used", 1), 2) if ("continuation" in why or e.get("used", 1) > 1) else 1
+                if depth <= DEPTHCAP:   # deeper positions cost depth x 2^32 reads to sweep: left to the pair rule (bounds above 2^31) and the drift line
+                    deviating.setdefault(n, set()).add(depth)
+                else:
+                    deep_undecided.add((n, depth))
                 ctx.drift("draw at bound %d: %s" % (n, why[6:]))
             else:
                 raise Undecided("%s at %s:%d" % (why, f, b["l"]))
@@ -79,7 +84,8 @@ def run(ctx):
         if n < 2 or extra >= 3 or (quick and n > (1 << 26)):
             continue
         extra += 1
-        for d in sorted(deviating[n] | {1}):
+        ds = sorted(deviating[n] | {1})
+        for d in ds[:2] + ds[2:][-1:]:          # first position, first continuation seen, deepest position seen
             if (n, d) not in [(a, b) for a, b, _ in plan]:
                 plan.append((n, d, "decides a deviation seen in directed draws"))
     for n, d, why in plan:
@@ -93,6 +99,9 @@ def run(ctx):
             if ctx.violations:
                 break            # already decided: further sweeps would only repeat the verdict
             drawfam_count(ctx, n, d, "decides a deviation seen in directed draws at a large bound")
+    if deep_undecided and not ctx.violations:
+        ctx.notes.append("deviations from the specification's sampler shape after more than %d rejected words (%s) are not decided by a sweep "
+                         "(cost = depth x 2^32 reads); the pair rule decides such positions for bounds above 2^31" % (DEPTHCAP, sorted(deep_undecided)[:4]))
     if deviating and not ctx.violations:
         ctx.notes.append("directed draws deviate from the specification's sampler shape at %d bounds but every decision sweep is flat: "
                          "a different, unbiased sampler" % len(deviating))
